@@ -548,6 +548,16 @@ fn texts(args: &Args) -> i32 {
         st.note(&ev, text_nontrivial(&ev));
         out.line(&ev);
     }
+    // ... and its preprocessor tests (ligatures, kerns, the ragged-right \spaceskip / \xspaceskip setting)
+    let rr_ss = common::Glue { width: Scaled::parse_from_string("3.33298pt").unwrap(), ..common::Glue::ZERO };
+    let rr_xs = common::Glue { width: Scaled::parse_from_string("5.0pt").unwrap(), ..common::Glue::ZERO };
+    for (t, ss, xs) in [("second", common::Glue::ZERO, common::Glue::ZERO), ("sec ond", common::Glue::ZERO, common::Glue::ZERO),
+        ("AO AV", common::Glue::ZERO, common::Glue::ZERO), ("ff ffi", common::Glue::ZERO, common::Glue::ZERO), ("a b. c", rr_ss, rr_xs)] {
+        let c = TextCase { font: 0, text: t.to_string(), codes: vec![], ss, xs };
+        let (ev, _) = run_text(&fonts, &c);
+        st.note(&ev, text_nontrivial(&ev));
+        out.line(&ev);
+    }
     for _ in 0..n {
         let c = random_text_case(&mut rng, 9);
         let (ev, list) = run_text(&fonts, &c);
